@@ -65,7 +65,7 @@ def folded(ctx, rep):
     m = ctx.m
     R5 = rep.rule('C18.R5', 'folded step invariant of qset mutators: for every small pre-state and argument the result equals the '
                             'list-without-duplicates model, list and set agree, hooks bracket the change, and a raising call leaves the state unchanged')
-    res, cons = containers.fold_qset(m)
+    res, cons = containers.fold_qset(m, deep=rep.tier == 'thorough')
     rep.consult(*cons)
     seen = set()
     for ok, meth, case, detail in res:
